@@ -48,7 +48,13 @@ try:
     r = mod._core(**args)
     out = {"held": bool(r), "exc": None}
 except BaseException as e:
-    out = {"held": False, "exc": type(e).__name__ + ": " + str(e)[:300], "tb": traceback.format_exc()[-1200:]}
+    site = "?"
+    tb = e.__traceback__
+    while tb is not None:
+        if "/execnet/" in tb.tb_frame.f_code.co_filename:
+            site = tb.tb_frame.f_code.co_name
+        tb = tb.tb_next
+    out = {"held": False, "exc": type(e).__name__ + "@" + site + ": " + str(e)[:300], "tb": traceback.format_exc()[-1200:]}
 print("REPLAY-RESULT " + json.dumps(out))
 """
 
